@@ -123,7 +123,7 @@ theorem real_fmtG_tok (p0 : Nat) (v : Val) (hv : isDouble v = true) :
         (numEnd_not_dot hr.numEnd) (exponent_none rest hr.numEnd)
       rw [← scaled_rest]
       simpa [fmtG, dval] using this
-    · obtain ⟨mant, z, _, hreal⟩ := real_fmtG p0 neg m e hm hv
+    · obtain ⟨mant, z, _, _, hreal⟩ := real_fmtG p0 neg m e hm hv
       exact tok_of_scaled _ neg mant _ hreal
 
 theorem fmtG_ne_nil (p0 : Nat) (v : Val) : fmtG p0 v ≠ [] := by
@@ -660,5 +660,128 @@ theorem svmRecords_svmClass (pts : List ClsPoint) (omo : Bool)
     · exact (numChar_props (AllNum.intDigits _ c hc)).2.1
     · decide
     · exact svmFeats_no_nl _ c hc
+
+/-! ### every printed binary64 value is accepted again -/
+
+theorem sciDigits_carry (p n d : Nat) (hd : 0 < d) (h : (sciDigits p n d).2 = decExp n d + 1) :
+    (sciDigits p n d).1 = 10 ^ p := by
+  have hq := sci_quot_lt p n d hd
+  revert h
+  unfold sciDigits
+  simp only
+  generalize (if (p : Int) - decExp n d ≥ 0 then n * 10 ^ ((p : Int) - decExp n d).toNat else n) = num at hq ⊢
+  generalize (if (p : Int) - decExp n d ≥ 0 then d else d * 10 ^ (-((p : Int) - decExp n d)).toNat) = den at hq ⊢
+  have hmle : (if 2 * (num % den) > den ∨ (2 * (num % den) = den ∧ num / den % 2 = 1) then num / den + 1 else num / den) ≤ num / den + 1 := by
+    split <;> omega
+  generalize (if 2 * (num % den) > den ∨ (2 * (num % den) = den ∧ num / den % 2 = 1) then num / den + 1 else num / den) = m at hmle ⊢
+  generalize decExp n d = e0
+  by_cases hc : m ≥ 10 ^ (p + 1)
+  · rw [if_pos hc]
+    intro _
+    have hm : m = 10 ^ (p + 1) := by omega
+    simp only
+    rw [hm, Nat.pow_succ, Nat.mul_div_cancel _ (by decide)]
+  · rw [if_neg hc]
+    intro h
+    simp only at h
+    omega
+
+set_option exponentiation.threshold 2000 in
+theorem ratOf_lt9 (neg : Bool) (m : Nat) (e : Int) (h : isDouble (.fin neg m e) = true) :
+    (Val.fin neg m e).ratOf.1 < 9 * 10 ^ 308 * (Val.fin neg m e).ratOf.2 := by
+  simp only [isDouble, Bool.and_eq_true, decide_eq_true_eq] at h
+  obtain ⟨⟨hm, hlo⟩, hhi⟩ := h
+  by_cases he : e ≥ 0
+  · simp only [Val.ratOf, he, if_true]
+    have h1 : 2 ^ e.toNat ≤ 2 ^ 971 := Nat.pow_le_pow_right (by decide) (by omega)
+    have h2 : m * 2 ^ e.toNat < 2 ^ 53 * 2 ^ 971 :=
+      Nat.lt_of_lt_of_le (Nat.mul_lt_mul_of_pos_right hm (Nat.pow_pos (by decide))) (Nat.mul_le_mul_left _ h1)
+    exact Nat.lt_trans h2 (by decide)
+  · simp only [Val.ratOf, he, if_false]
+    have h1 : 0 < 2 ^ (-e).toNat := Nat.pow_pos (by decide)
+    calc m < 9 * 10 ^ 308 * 1 := Nat.lt_trans hm (by decide)
+      _ ≤ 9 * 10 ^ 308 * 2 ^ (-e).toNat := Nat.mul_le_mul_left _ h1
+
+set_option exponentiation.threshold 2000 in
+/-- the decimal exponent of a printed binary64 value never exceeds 308 (no carry into `1e+309`) -/
+theorem sciDigits_exp_le_308 (p n d : Nat) (hp : p < 308) (hd : 0 < d) (hn9 : n < 9 * 10 ^ 308 * d)
+    (hlen : (natDigits n).length ≤ 309) : (sciDigits p n d).2 ≤ 308 := by
+  have hb := decExp_bounds n d
+  obtain ⟨hex, hnear⟩ := sciDigits_nearest p n d hd
+  rcases hex with hex | hex
+  · omega
+  · by_cases h307 : decExp n d ≤ 307
+    · omega
+    · exfalso
+      have he0 : decExp n d = 308 := by omega
+      have hds := sciDigits_carry p n d hd hex
+      rw [hex, hds, he0] at hnear
+      have hs : ¬ ((p : Int) - 308 ≥ 0) := by omega
+      have ht : (-((p : Int) - 308)).toNat = 308 - p := by omega
+      have h1 : ((308 : Int) + 1 - 308).toNat = 1 := by decide
+      simp only [hs, if_false, ht, h1] at hnear
+      have hAB : 10 ^ p * 10 ^ (308 - p) = 10 ^ 308 := by rw [← Nat.pow_add]; congr 1; omega
+      have hX : 10 ^ p * 10 ^ 1 * (d * 10 ^ (308 - p)) = 10 * (10 ^ 308 * d) := by
+        rw [← hAB]; simp only [Nat.pow_one, Nat.mul_comm, Nat.mul_left_comm, Nat.mul_assoc]
+      have hB : d * 10 ^ (308 - p) ≤ 10 ^ 308 * d := by
+        rw [Nat.mul_comm]; exact Nat.mul_le_mul_right d (Nat.pow_le_pow_right (by decide) (by omega))
+      have hn9' : n < 9 * (10 ^ 308 * d) := by rw [← Nat.mul_assoc]; exact hn9
+      generalize 10 ^ 308 * d = T at hX hB hn9'
+      generalize d * 10 ^ (308 - p) = den at hnear hB hX
+      push_cast at hnear
+      have hXi : ((10 : Int) ^ p * 10 * den) = 10 * T := by
+        have := hX
+        simp only [Nat.pow_one] at this
+        exact_mod_cast this
+      rw [hXi] at hnear
+      omega
+
+theorem scaled_some (neg : Bool) (dg : Nat) (K : Int) (rest : List Char) (h1 : -614 ≤ K) (h2 : K ≤ 308) :
+    ∃ x, scaled neg dg K rest = some (x, rest) := by
+  unfold scaled
+  rw [if_neg (by omega)]
+  split
+  · exact ⟨_, rfl⟩
+  · split <;> exact ⟨_, rfl⟩
+
+/-- **every binary64 value printed by `%.<p>g`, `1 ≤ p ≤ 17`, is accepted by `double_` again** (the decimal exponent stays
+inside spirit's range `[-614, 308]`), in particular everything `exportSparseData` (`%.6g`) and `exportCSV` (`%.10g`) print -/
+theorem readBack_fmtG_some (p0 : Nat) (hp0 : p0 ≤ 17) (v : Val) (hv : isDouble v = true) : ∃ v', readBack (fmtG p0 v) = some v' := by
+  cases v with
+  | nan => exact ⟨.nan, by show readBack "nan".toList = some Val.nan; decide⟩
+  | inf neg =>
+    cases neg
+    · exact ⟨.inf false, by show readBack "inf".toList = some (Val.inf false); decide⟩
+    · exact ⟨.inf true, by show readBack ('-' :: "inf".toList) = some (Val.inf true); decide⟩
+  | fin neg m e =>
+    by_cases hm : m = 0
+    · subst hm
+      have : fmtG p0 (Val.fin neg 0 e) = signOf neg ++ ['0'] := by simp [fmtG]
+      rw [this]
+      cases neg
+      · exact ⟨Val.fin false 0 0, by decide⟩
+      · exact ⟨Val.fin true 0 0, by decide⟩
+    · obtain ⟨mant, z, _, hK, hreal⟩ := real_fmtG p0 neg m e hm hv
+      obtain ⟨hn, hd0, hd⟩ := ratOf_bounds neg m e hv
+      have hP : 1 ≤ (if p0 = 0 then 1 else p0) ∧ (if p0 = 0 then 1 else p0) ≤ 17 := by split <;> omega
+      generalize (if p0 = 0 then 1 else p0) = P at hP hK hreal
+      have hb := sciDigits_exp_bounds (P - 1) (Val.fin neg m e).ratOf.1 (Val.fin neg m e).ratOf.2
+      have h1 := natDigits_length_le _ 309 hn (by decide)
+      have h2 := natDigits_length_le _ 324 hd (by decide)
+      have h308 := sciDigits_exp_le_308 (P - 1) _ _ (by omega) hd0 (ratOf_lt9 neg m e hv) h1
+      have hr := hreal [] (fun c t h => by simp at h)
+      rw [List.append_nil] at hr
+      obtain ⟨x, hx⟩ := scaled_some neg mant
+        ((sciDigits (P - 1) (Val.fin neg m e).ratOf.1 (Val.fin neg m e).ratOf.2).2 - ((P - 1 : Nat) : Int) + (z : Int)) []
+        (by omega) (by omega)
+      exact ⟨x, by unfold readBack; rw [hr, hx]⟩
+
+/-- the value `importSparseData` obtains for a value `exportSparseData` printed (`%.6g`) -/
+def reimport6 (v : Val) : Val := (readBack (svmNum v)).getD .nan
+
+theorem readBack_svmNum (v : Val) (hv : isDouble v = true) : readBack (svmNum v) = some (reimport6 v) := by
+  obtain ⟨v', h⟩ := readBack_fmtG_some 6 (by decide) v hv
+  unfold reimport6 svmNum
+  rw [h]; rfl
 
 end SharkVerif.Import.Export
